@@ -14,7 +14,13 @@ import (
 	"verif/engine/vtime"
 )
 
+var dbgHook func()
+
 func TestVerif(t *testing.T) {
+	if dbgHook != nil {
+		dbgHook()
+		return
+	}
 	vsched.Main(map[string]vsched.CheckFunc{
 		"C13": func(c *vsched.RunCtx) { checkME(c, "C13") },
 		"C14": func(c *vsched.RunCtx) { checkME(c, "C14") },
@@ -63,8 +69,9 @@ const (
 )
 
 type refEP struct {
-	state int
-	until time.Time
+	state   int
+	until   time.Time
+	expired bool // became unavailable because its recovery window ran out
 }
 
 type meWorld struct {
@@ -142,6 +149,7 @@ func (w *meWorld) refTime() {
 			// tolerance band when that timer fires, so the band counts as "ended".
 			if !now.Before(r.until.Add(-tol)) {
 				r.state = stUnavail
+				r.expired = true
 			}
 		}
 	}
@@ -228,6 +236,9 @@ func (w *meWorld) advMenu() []time.Duration {
 	m := map[time.Duration]bool{ms: true}
 	if w.cfg.R > 0 {
 		m[w.cfg.R] = true
+		if w.cfg.R > ms {
+			m[w.cfg.R-ms] = true // lands strictly inside a window that was (wrongly) re-started 1ms late
+		}
 	}
 	if w.cfg.D > 0 {
 		m[w.cfg.D] = true
@@ -259,6 +270,7 @@ func (w *meWorld) Do(op string) {
 					w.nontriv = true
 				}
 				r.state = stAvail
+				r.expired = false
 			} else if r.state == stAvail {
 				w.nontriv = true
 				if w.cfg.R > 0 {
@@ -474,6 +486,9 @@ func (w *meWorld) afterOp(pre, kind string) {
 		// M2
 		if w.inList(cur) && w.st[cur].state == stUnavail {
 			w.violate("C13", "C13.M2", "current known unavailable while another is available after "+kind, desc)
+			if w.st[cur].expired {
+				w.violate("C14", "C14.W2", "current endpoint kept beyond the end of its recovery window", desc)
+			}
 		} else if kind != "adv" && kind != "fire" && (!w.inList(pre) || w.st[pre].state == stUnavail) && cur != ta {
 			w.violate("C13", "C13.M2", "not top available after leaving unavailable/removed current in "+kind, desc+" expected "+ta)
 		}
